@@ -116,7 +116,7 @@ def run(ctx):
         if rng.random() < 0.25:
             # an explicit iteration cap (documented: min_iter then defaults to max_iter // 2), through taylor() and derivative() alike
             kw['max_iter'] = rng.choice([40, 60, 45])
-            if rng.random() < 0.5:
+            if rng.random() < 0.5 and 'r' in kw and kw.get('num_extrap') != 1:
                 kw['r'], kw['n'] = 10.0 ** rng.uniform(-5.5, -4), rng.choice([13, 20, 27, n])
                 n = kw['n']
         rep = dict(f=name, z0=str(z0), **{k: v for k, v in kw.items() if k != 'full_output'})
@@ -221,6 +221,62 @@ def run(ctx):
             if len(dv) < n + 1 or not (np.allclose(dv[:mm], np.asarray(c)[:mm] * fact, rtol=1e-12, atol=0) and
                     np.allclose(dinfo.error_estimate[:mm], np.asarray(info.error_estimate)[:mm] * fact, rtol=1e-12, atol=0)):
                 ctx.violation('derivative() is not taylor() times k! (values or error estimates)', **rep)
+    # default options on entire functions of modest scale, 14 <= n <= 20 (FFT size 32): the search has to move the radius from 0.0059 to
+    # beyond 3, which takes about 13 circles — the documented min_iter = max_iter // 2 = 15 leaves room for that; the result must be neither
+    # degenerate nor failed, and accurate
+    for fname, fe, ser in (('exp(z/2)', lambda z: np.exp(0.5 * z), lambda z0, k: np.exp(0.5 * z0) * 0.5 ** k / math.factorial(k)),
+                           ('exp(0.3z)', lambda z: np.exp(0.3 * z), lambda z0, k: np.exp(0.3 * z0) * 0.3 ** k / math.factorial(k)),
+                           ('exp((0.3+0.4j)z)', lambda z: np.exp((0.3 + 0.4j) * z),
+                            lambda z0, k: np.exp((0.3 + 0.4j) * z0) * (0.3 + 0.4j) ** k / math.factorial(k))):
+        for n in (14, 16, 20, 10):
+            for z0 in (0.0, 0.5, 0.25 + 0.5j):
+                ctx.tried(('defaults-entire', fname, n, str(z0)))
+                try:
+                    with warnings.catch_warnings():
+                        warnings.simplefilter('ignore')
+                        c, info = fb.taylor(fe, z0, n=n, full_output=True)
+                except Exception as ex_:
+                    ctx.violation('taylor raised %r' % ex_, f=fname, z0=str(z0), n=n)
+                    continue
+                if info.degenerate or info.failed:
+                    ctx.violation('default options, entire function of modest scale: reported degenerate or failed', f=fname, z0=str(z0), n=n,
+                                  degenerate=bool(info.degenerate), failed=bool(info.failed), iterations=int(info.iterations))
+                    continue
+                errs = [abs(complex(c[k]) - complex(ser(z0, k))) for k in range(n + 1)]
+                est = np.abs(np.asarray(info.error_estimate))[:n + 1]
+                R = float(info.final_radius)
+                fmax = float(np.max(np.abs(fe(z0 + R * np.exp(2j * np.pi * np.arange(64) / 64)))))
+                bad = [k for k in range(n + 1) if errs[k] > K_EST * est[k] + C_FLOOR * EPS * fmax / R ** k]
+                if bad:
+                    ctx.violation('a Taylor coefficient is farther from the exact one than 1000 x its error estimate plus the FFT rounding floor',
+                                  f=fname, z0=str(z0), n=n, k=bad[0], error=float(errs[bad[0]]), error_estimate=float(est[bad[0]]), final_radius=R)
+    # a small initial radius with many coefficients (r**-k overflows on the first circles) and a single extrapolation circle, enumerated
+    for fname, fe, ser in (('exp(z/2)', lambda z: np.exp(0.5 * z), lambda z0, k: np.exp(0.5 * z0) * 0.5 ** k / math.factorial(k)),
+                           ('1/(4-z)', lambda z: 1.0 / (4.0 - z), lambda z0, k: 1.0 / (4.0 - z0) ** (k + 1))):
+        for n, r in ((60, 1e-3), (100, 3e-3), (60, 3e-3), (53, 3e-3), (75, 1e-4), (60, 1e-5), (40, 1e-5)):
+            for z0 in (0.0, 0.25, 0.3 + 0.2j):
+                ctx.tried(('small-radius-one-circle', fname, n, r, str(z0)))
+                try:
+                    with warnings.catch_warnings():
+                        warnings.simplefilter('ignore')
+                        c, info = fb.taylor(fe, z0, n=n, r=r, num_extrap=1, full_output=True)
+                except Exception as ex_:
+                    ctx.violation('taylor raised %r' % ex_, f=fname, z0=str(z0), n=n, r=r, num_extrap=1)
+                    continue
+                if info.degenerate or info.failed or len(c) < n + 1:
+                    continue
+                R = float(info.final_radius)
+                if fname.startswith('1/') and R >= 0.9 * abs(4.0 - z0):
+                    continue              # the recorded finding C17-radius-beyond-singularity
+                est = np.abs(np.asarray(info.error_estimate))[:n + 1]
+                fmax = float(np.max(np.abs(fe(z0 + R * np.exp(2j * np.pi * np.arange(64) / 64)))))
+                bad = [k for k in range(n + 1)
+                       if abs(complex(c[k]) - complex(ser(z0, k))) > K_EST * est[k] + C_FLOOR * EPS * fmax / R ** k]
+                if bad:
+                    k = bad[0]
+                    ctx.violation('a Taylor coefficient is farther from the exact one than 1000 x its error estimate plus the FFT rounding floor',
+                                  f=fname, z0=str(z0), n=n, r=r, num_extrap=1, k=k, error=float(abs(complex(c[k]) - complex(ser(z0, k)))),
+                                  error_estimate=float(est[k]), final_radius=R)
     louts = run_driver(['tloop %d %s' % (mi, ' '.join('1' if v else '0' for v in fl)) for fl, _f, mi in loop_jobs], 'C17t') if loop_jobs else []
     for (fl, failed, _mi), line in zip(loop_jobs, louts):
         leng['cases'] += 1
